@@ -175,9 +175,9 @@ def _distribute_try(computation_graph: ComputationGraph,
                     'Could not find feasible distribution after {} '
                     'attempts'.format(attempt))
             else:
-                _distribute_try(computation_graph, agents, hints,
-                                computation_memory, computation_graph,
-                                attempt+1)
+                return _distribute_try(computation_graph, agents, hints,
+                                       computation_memory, computation_graph,
+                                       attempt+1)
 
         mapping[selected].update({n.name})
         var_hosted[n.name] = selected
